@@ -145,6 +145,8 @@ pub fn tuple_alphabet(input: Input) -> Vec<C4> {
             [0.2, 2.0, 0., 2001.],
             [f64::NAN, 0.9, 0., 2001.],
             [0.2, 0.95, 10., 2001.],
+            // exactly at a pole: the apex of a cone, the centre of a polar aspect - a special branch of many projections
+            [0.7, std::f64::consts::FRAC_PI_2, 3., 2005.],
             [3.0, -1.2, 1000., 2010.],
             [0.1495, 0.975, 5., 2030.25],
         ],
